@@ -989,6 +989,36 @@ C07_Never ==
     /\ LET c == ConfBySel(r.sel) IN Allowed(c, r.param) /\ MightHave(c, r.param)
 
 ------------------------------------------------------------------------------
+(* C06: the config string, at the level of statements.  Text layout (wrapping, quoting, ordering of
+   sections) is not modelled; it is exercised on the real text by the conformance harness. *)
+ProperSuffixesOf(n) == { SubSeq(n, i, Len(n)) : i \in 1..Len(n) }
+\* the shortest spelling that resolves to n (what SelectorMap.minimal_selector reports; C08_Minimal)
+MinimalSpelling(n) ==
+  LET ok == { s \in ProperSuffixesOf(n) : MatchSet(RegSels, s) = {n} }
+  IN CHOOSE s \in ok : \A t \in ok : Len(s) <= Len(t)
+
+\* one emitted statement per representable binding; macros are written as `name = value`
+Serialize(cf) ==
+  { [scope |-> b.scope,
+     spelling |-> IF b.sel = GinMacroSel THEN <<>> ELSE MinimalSpelling(b.sel),
+     sel |-> b.sel, param |-> b.param, val |-> b.val] :
+      b \in { x \in ToSet(cf) : Representable(x.val) /\ x.sel # GinConstSel } }
+
+\* parsing the emitted statements into a cleared configuration restores exactly the representable bindings:
+\* every emitted spelling resolves, uniquely, to the configurable it was written for, and the binding is accepted
+C06_RoundTrip ==
+  \A st \in Serialize(cfg) :
+    \/ st.sel = GinMacroSel
+    \/ /\ ResolveConf(st.spelling) = <<"one", ConfBySel(st.sel)>>
+       /\ BindVerdict(ConfBySel(st.sel), st.param) = "ok"
+
+\* values without a literal form are omitted, everything else is emitted
+C06_Omits ==
+  /\ \A st \in Serialize(cfg) : Representable(st.val)
+  /\ \A i \in 1..Len(cfg) : (Representable(cfg[i].val) /\ cfg[i].sel # GinConstSel) =>
+        \E st \in Serialize(cfg) : st.scope = cfg[i].scope /\ st.sel = cfg[i].sel /\ st.param = cfg[i].param
+
+------------------------------------------------------------------------------
 (* state predicates over `out`, as action properties (so that VIEWs may drop `out`) *)
 C05_ResolveA == [][C05_Resolve']_vars
 C11_AcceptA == [][C11_Accept']_vars
